@@ -202,9 +202,58 @@ def boom25():
 
 RAISING = [boom23, Boom24, boom25]
 
+
+# factories whose product is not a fresh truthy object: None (an optional service that is switched off), with and without a
+# dependency, and an object that is falsy and empty (__bool__ / __len__). The container stores what the call returned.
+def none26():
+	W['serial'] += 1
+	return None
+
+
+def none27(a: S0):
+	W['serial'] += 1
+	return None
+
+
+class Falsy28(Made):
+	def __init__(self):
+		Made.__init__(self, 28, ())
+
+	def __bool__(self):
+		return False
+
+	def __len__(self):
+		return 0
+
+
+RETURNS_NONE = [none26, none27]
+
+
+# a return annotation is not a parameter; a default value does not make an annotated parameter optional for invoke
+def fn29(a: S0, b: S1) -> Made:
+	return Made(29, (a, b))
+
+
+def fn30(a: S2, n: int = 7) -> 'Made':
+	return Made(30, (a, n))
+
+
+# subclasses of the expected classes are accepted as remaining arguments (isinstance)
+class SubInt(int): pass
+class SubStr(str): pass
+SUBS = {}
+
+
+def sub_of(cls):
+	if cls not in SUBS:
+		SUBS[cls] = type('Sub' + cls.__name__, (cls,), {})
+	return SUBS[cls]
+
+
 FACTORIES = [K0, K1, fn2, fn3, bm4, bm5, co6, co7, clo8, clo9, dup10, dup11, lam12, lam13, fn14, K15, fn16, fn17, fn18,
-	Reader.Setting, Writer.Setting, LocalR, LocalW, boom23, Boom24, boom25]
-BY_NAME = ['K0', 'K1', 'fn2', 'fn3', 'bm4', 'co6', 'clo8', 'clo9', 'dup10', 'dup11', 'lam12', 'fn14', 'K15', 'fn16', 'fn17', 'boom23', 'boom25']
+	Reader.Setting, Writer.Setting, LocalR, LocalW, boom23, Boom24, boom25, none26, none27, Falsy28, fn29, fn30]
+BY_NAME = ['K0', 'K1', 'fn2', 'fn3', 'bm4', 'co6', 'clo8', 'clo9', 'dup10', 'dup11', 'lam12', 'fn14', 'K15', 'fn16', 'fn17', 'boom23', 'boom25',
+	'none26', 'none27', 'Falsy28', 'fn29', 'fn30']
 '''
 
 TY_STR = 100
@@ -214,6 +263,8 @@ NESTED_FROM = 500  # model: symbol ids >= 500 are classes nested in a class / fu
 NESTED_SYMS = [500, 501, 502, 503]
 ALLSYMS = [*range(NSYM), *NESTED_SYMS]
 MAX_CONTS = 5
+LEAF = [0, 15, 12, 26, 28]   # parameterless factories of the structured prefixes: class, __new__-only class, lambda, returns None, falsy object
+LEAF2 = [0, 15, 26]
 # defects of the snapshot tree that were repaired in /repo; kept as regression detectors; key = finding key
 DEVIATIONS = [
 	'invoke-qualname-alias',
@@ -242,21 +293,31 @@ class BudgetExceeded(BaseException):
 	"""raised by the interval timer inside a real-code call (BaseException: the per-op `except Exception` must not swallow it)"""
 
 
+WALL_FACTOR = 10.0  # the wall-clock guard is this many times the CPU budget (the check may run on a heavily loaded machine)
+
+
 @contextmanager
 def budget(seconds: float):
+	"""Budget for one real-code call, in CPU time of this process (ITIMER_PROF): a loop in the code under test burns CPU and is cut
+	off after `seconds`, while a process that is merely descheduled on a loaded machine is not — so a slow machine cannot turn
+	into a finding. A wall-clock guard (ITIMER_REAL, WALL_FACTOR x seconds) catches a call that blocks without using CPU."""
 	def on_alarm(signum: int, frame: Any) -> None:
 		raise BudgetExceeded()
-	old = signal.signal(signal.SIGALRM, on_alarm)
-	signal.setitimer(signal.ITIMER_REAL, seconds)
+	old_prof = signal.signal(signal.SIGPROF, on_alarm)
+	old_alrm = signal.signal(signal.SIGALRM, on_alarm)
+	signal.setitimer(signal.ITIMER_PROF, seconds)
+	signal.setitimer(signal.ITIMER_REAL, seconds * WALL_FACTOR)
 	try:
 		yield
 	finally:
+		signal.setitimer(signal.ITIMER_PROF, 0)
 		signal.setitimer(signal.ITIMER_REAL, 0)
-		signal.signal(signal.SIGALRM, old)
+		signal.signal(signal.SIGPROF, old_prof)
+		signal.signal(signal.SIGALRM, old_alrm)
 
 
-CASE_BUDGET_S = 3.0       # one op sequence on the real containers (normally a few milliseconds)
-PRODUCTION_BUDGET_S = 45.0  # one real production run (normally 1-3 s)
+CASE_BUDGET_S = 3.0       # CPU seconds for one op sequence on the real containers (normally a few milliseconds)
+PRODUCTION_BUDGET_S = 45.0  # CPU seconds for one real production run (normally 1-3 s)
 
 
 PRODUCTION_STATE = {'timed_out': False}
@@ -294,6 +355,7 @@ class World:
 		self.factories: list[Any] = list(self.mod.FACTORIES)
 		self.by_name: list[str] = list(self.mod.BY_NAME)
 		self.raising: set[int] = {i for i, f in enumerate(self.factories) if any(f is r for r in self.mod.RAISING)}
+		self.nonef: set[int] = {i for i, f in enumerate(self.factories) if any(f is r for r in self.mod.RETURNS_NONE)}
 		self.sym_index = {s: i for i, s in self.syms.items()}
 		self.sym_index[str] = TY_STR
 		self.sym_index[int] = TY_INT
@@ -311,7 +373,8 @@ class World:
 				q = quals.setdefault(full, len(quals))
 			params: list[tuple[int, bool] | None] = []
 			for p in inspect.signature(fobj).parameters.values():
-				assert p.kind == p.POSITIONAL_OR_KEYWORD and p.default is p.empty
+				# a default is allowed on an annotated parameter only: invoke demands one remaining argument per unresolved annotation
+				assert p.kind == p.POSITIONAL_OR_KEYWORD and (p.default is p.empty or p.annotation is not p.empty)
 				params.append(None if p.annotation is p.empty else self.sym_of_anno(p.annotation))
 			self.desc.append((q, params))
 			# identity (hash / equality class) of the callable whose annotations DI reads, di.py `__to_annotated`
@@ -341,15 +404,19 @@ class World:
 		self.mod.W['serial'] = 0
 
 	def arg_value(self, xid: int, ty: int) -> Any:
+		sub = xid % 4 == 3  # every fourth value is an instance of a subclass of the class named by `ty`
 		if ty == TY_STR:
-			return f'x{xid}'
+			return self.mod.SubStr(f'x{xid}') if sub else f'x{xid}'
 		if ty == TY_INT:
-			return 1000 + xid
-		o = object.__new__(self.syms[ty])  # no __init__: the nested classes are factories too and would draw a serial
+			return self.mod.SubInt(1000 + xid) if sub else 1000 + xid
+		cls = self.mod.sub_of(self.syms[ty]) if sub else self.syms[ty]
+		o = object.__new__(cls)  # no __init__: the nested classes are factories too and would draw a serial
 		o.xid = xid
 		return o
 
 	def show_val(self, v: Any) -> str:
+		if v is None:
+			return 'none'
 		if isinstance(v, str):
 			return v
 		if isinstance(v, int):
@@ -359,6 +426,9 @@ class World:
 		return f'x{v.xid}'
 
 	def show_obj(self, o: Any) -> str:
+		if o is None:
+			# None has no identity: shown with the number of factory calls that returned so far (a re-run factory shows at once)
+			return f"none/n{self.mod.W['serial']}"
 		return f"i{o.serial}:f{o.ftag}({','.join(self.show_val(a) for a in o.args)})"
 
 
@@ -373,7 +443,7 @@ def sym_txt(s: tuple[int, bool]) -> str:
 def fac_txt(w: World, fid: int) -> str:
 	_, params = w.desc[fid]
 	ps = ','.join('_' if p is None else sym_txt(p) for p in params) or '-'
-	return f"{'r' if fid in w.raising else 'f'}{fid}/{w.aid[fid]}/{ps}"
+	return f"{'r' if fid in w.raising else 'z' if fid in w.nonef else 'f'}{fid}/{w.aid[fid]}/{ps}"
 
 
 def inj_txt(w: World, inj: tuple) -> str:
@@ -606,7 +676,7 @@ class Reference:
 		if fid in self.w.raising:
 			# the body of the factory raises: no object, nothing stored by the caller
 			raise RefError('NotImplementedError')
-		obj = (self.serial, fid, tuple([f'i{o[0]}' for o in curried] + [f'x{i}' for i, _ in args]))
+		obj = (self.serial, fid, tuple(['none' if o[1] in self.w.nonef else f'i{o[0]}' for o in curried] + [f'x{i}' for i, _ in args]))
 		self.serial += 1
 		return obj
 
@@ -633,6 +703,8 @@ class Reference:
 		return n
 
 	def show_obj(self, o: tuple) -> str:
+		if o[1] in self.w.nonef:
+			return f'none/n{self.serial}'
 		return f"i{o[0]}:f{o[1]}({','.join(o[2])})"
 
 	def step(self, op: tuple) -> str:
@@ -817,37 +889,37 @@ def gen_case(w: World, rng: random.Random, max_ops: int, search: bool) -> list[t
 			fid = rng.choice([1, 2, 3, 4, 8, 9, 10, 11, 16, 17, 18])
 			for p in w.desc[fid][1]:
 				if p is not None and p[0] in ALLSYMS and rng.random() < 0.6:
-					emit(('bind', 0, p, rng.choice([0, 15, 12])))
+					emit(('bind', 0, p, rng.choice(LEAF)))
 			emit(('invoke', 0, fid, valid_args(0, fid)))
 			emit(('new', 'lazy', [(rng.randrange(NSYM), rinj())]) if lazy else ('new', 'di'))
 			if rng.random() < 0.5:
-				emit(('bind', 1, rsym(1, False), rng.choice([0, 15, 12])))
+				emit(('bind', 1, rsym(1, False), rng.choice(LEAF)))
 			emit(('combine', 0, 1) if rng.random() < 0.7 else ('clone', 0))
 			emit(('invoke', 2, fid, bad_args(2, fid)))
 			emit(('invoke', 2, fid, valid_args(2, fid)))
 			emit(('invoke', 0, fid, bad_args(0, fid)))
 		elif kind == 'generic-alias':
 			k = rng.choice([4, 5])
-			emit(('bind', 0, (k, rng.random() < 0.5), rng.choice([0, 15, 12])))
+			emit(('bind', 0, (k, rng.random() < 0.5), rng.choice(LEAF)))
 			emit(('resolve', 0, (k, rng.random() < 0.5)))
-			emit(rng.choice([('unbind', 0, (k, True)), ('rebind', 0, (k, True), rng.choice([0, 15])), ('rebind', 0, (k, False), 12)]))
+			emit(rng.choice([('unbind', 0, (k, True)), ('rebind', 0, (k, True), rng.choice(LEAF2)), ('rebind', 0, (k, False), 12)]))
 			emit(('can', 0, (k, rng.random() < 0.5)))
 			emit(('resolve', 0, (k, rng.random() < 0.5)))
 			emit(('bind', 0, (k, rng.random() < 0.5), 0))
 			emit(('resolve', 0, (k, False)))
 		elif kind == 'combine-after-resolve':
 			s = rsym()
-			emit(('bind', 0, s, rng.choice([0, 15, 12])))
+			emit(('bind', 0, s, rng.choice(LEAF)))
 			if rng.random() < 0.7:
 				emit(('resolve', 0, s))
 			emit(('new', 'lazy', [(s[0], rinj())] if rng.random() < 0.6 else []) if lazy else ('new', 'di'))
 			if not lazy or rng.random() < 0.4:
-				emit(('bind', 1, s, rng.choice([0, 15, 12])))
+				emit(('bind', 1, s, rng.choice(LEAF)))
 			if rng.random() < 0.5:
 				emit(('resolve', 1, s))
 			emit(('combine', 0, 1))
 			emit(('resolve', 2, s))
-			emit(('rebind', 2, s, rng.choice([0, 15])))
+			emit(('rebind', 2, s, rng.choice(LEAF2)))
 			for c in rng.sample([0, 1, 2], 3):
 				emit(('resolve', c, s))
 		elif kind == 'production-shape':
@@ -857,7 +929,7 @@ def gen_case(w: World, rng: random.Random, max_ops: int, search: bool) -> list[t
 			pre = rng.sample(universe, 2)
 			for p in pre:
 				if p not in ref.conts[0].ents:
-					emit(('bind', 0, (p, False), rng.choice([0, 15, 12])))
+					emit(('bind', 0, (p, False), rng.choice(LEAF)))
 			for _ in range(rng.randint(1, 2)):
 				if len(ref.conts) + 2 > MAX_CONTS:
 					break
@@ -869,8 +941,8 @@ def gen_case(w: World, rng: random.Random, max_ops: int, search: bool) -> list[t
 				d = len(ref.conts) - 1
 				emit(('combine', 0, d))
 				m = len(ref.conts) - 1
-				emit(('rebind', m, (pre[0], False), rng.choice([0, 15, 12])))
-				emit(('bind', m, rsym(m, False), rng.choice([0, 15, 12])))
+				emit(('rebind', m, (pre[0], False), rng.choice(LEAF)))
+				emit(('bind', m, rsym(m, False), rng.choice(LEAF)))
 				emit(('resolve', m, rsym(m, True)))
 				emit(('resolve', 0, rsym(0, True)))
 				for p in pre:
@@ -978,7 +1050,7 @@ def stream_di(ctx: Ctx, w: World) -> Stream:
 		ops = [('reset',), *gen_case(w, rng, max_ops if i % 4 else max(8, max_ops // 3), search=False)]
 		real = run_real(w, ops)
 		for o in real:
-			hist_out[o if not o.startswith(('i', 'c')) else o[0]] += 1
+			hist_out['none' if o.startswith('none') else o if not o.startswith(('i', 'c')) else o[0]] += 1
 		cases.append(({'kind': 'random', 'ops': ops}, [op_line(w, o) for o in ops], real))
 	st = common.correspond('di', cases, 'di', classify=lambda d: classify_case(d['ops']))
 	for d in st.disagreements:
@@ -986,7 +1058,8 @@ def stream_di(ctx: Ctx, w: World) -> Stream:
 			d['case'] = {'kind': d['case'].get('kind'), 'ops_json': [op_to_json(o) for o in d['case']['ops']]}
 	st.histogram = {**st.histogram, **{f'out:{k}': v for k, v in sorted(hist_out.items())}}
 	st.note = (f'op sequences (<= {max_ops} ops) over 6 module-level symbol classes (2 generic) + 4 same-named nested / function-local classes (Reader.Setting, Writer.Setting, two local Setting; also used as factories), {len(w.factories)} factories (classes, functions, bound methods, '
-		'callable objects with/without __qualname__, closures and redefinitions sharing a qualified name, two bound methods of one function, lambdas, unannotated parameters), '
+		'callable objects with/without __qualname__, closures and redefinitions sharing a qualified name, two bound methods of one function, lambdas, unannotated parameters, return annotations, a default value, '
+		'factories that raise, return None or return a falsy empty object), remaining arguments incl. subclass instances, '
 		'by-name definitions through a scratch module (incl. missing attribute / missing module), <= 5 containers; '
 		'observations: creation serial + factory + argument identities of resolved/invoked instances, can_resolve, exception enum')
 	return st
@@ -1347,7 +1420,10 @@ def stream_wiring(ctx: Ctx) -> Stream:
 	ents = log.entries
 
 	def sig(e: Any) -> tuple[str, str]:
-		return (e[0], to_fullyname(getattr(e[2], '__origin__', e[2])))
+		try:
+			return (e[0], to_fullyname(getattr(e[2], '__origin__', e[2])))
+		except Exception:  # noqa: BLE001 - an entry that names no symbol (new / combine) where a statement on a symbol is expected
+			return (str(e[0]), f'<{type(e[2]).__name__}>')
 
 	def differ(what: str, real: Any, gen: Any) -> None:
 		st.disagreements.append({'case': {'kind': 'wiring', 'what': what}, 'op_index': 0, 'op': what, 'real': repr(real)[:600], 'model': repr(gen)[:600], 'ops': []})
@@ -1391,7 +1467,7 @@ def stream_production(ctx: Ctx, w: World) -> Stream:
 		except BudgetExceeded:
 			PRODUCTION_STATE['timed_out'] = True
 			st.cases += 1
-			st.disagreements.append({'case': {'kind': 'production', 'case_index': i}, 'op_index': 0, 'op': 'production run', 'real': f'no result within {PRODUCTION_BUDGET_S}s', 'model': 'terminates', 'ops': []})
+			st.disagreements.append({'case': {'kind': 'production', 'case_index': i}, 'op_index': 0, 'op': 'production run', 'real': f'no result within {PRODUCTION_BUDGET_S}s of CPU time', 'model': 'terminates', 'ops': []})
 			continue
 		except Exception as e:  # noqa: BLE001 - real module loading (or its translation) failed: reported, never a crash
 			st.cases += 1
@@ -1512,7 +1588,7 @@ def search_reference(ctx: Ctx, w: World) -> SearchResult:
 			sideal = run_ref(w, small, IDEAL)
 			j = first_diff(sreal, sideal)
 			what = (('RETURN OF A REPAIRED DEFECT: ' + DEVIATION_WHAT[key]) if key in DEVIATION_WHAT
-				else f'an op sequence did not finish on the real containers within {CASE_BUDGET_S}s' if key == 'real-code-timeout'
+				else f'an op sequence did not finish on the real containers within {CASE_BUDGET_S}s of CPU time' if key == 'real-code-timeout'
 				else 'the real container and the reference model disagree (no repaired defect explains it)')
 			res.findings.append(Finding(key=key, what=f'{what}; first seen in {name}: op {j} `{op_line(w, small[j]) if j >= 0 else "?"}` real={sreal[j] if j >= 0 else "?"} reference={sideal[j] if j >= 0 else "?"}',
 				replay={'ops': [op_to_json(o) for o in small], 'op_lines': [op_line(w, o) for o in small], 'real': sreal, 'reference': sideal, 'from': name}))
@@ -1538,7 +1614,7 @@ def search_production(ctx: Ctx) -> SearchResult:
 				log, shared = production_run(ctx, rng, ctx.scale(1, 2), ctx.scale(2, 5))
 		except BudgetExceeded:
 			PRODUCTION_STATE['timed_out'] = True
-			res.findings.append(Finding(key='production-run-timeout', what=f'real module loading on the logging containers did not finish within {PRODUCTION_BUDGET_S}s', replay={'run': i}))
+			res.findings.append(Finding(key='production-run-timeout', what=f'real module loading on the logging containers did not finish within {PRODUCTION_BUDGET_S}s of CPU time', replay={'run': i}))
 			break
 		except Exception as e:  # noqa: BLE001
 			res.findings.append(Finding(key='production-run-raises', what=f'real module loading failed on the logging containers: {exc_enum(e)}: {e}', replay={'run': i}))
@@ -1625,6 +1701,11 @@ STATEMENTS = {
 	'production_locals_isolated': 'on the shipped wiring the shared container does not know Entry/Query/NodeResolver/Entrypoint/ModulePath, the two module containers hold different instances of each, Locator/Invoker of container k are the closures over k',
 	'production_no_private_copies': 'on the shipped wiring, after the loads, every instance a module container holds for a non-local symbol is the instance the shared container holds (production does not use late sharing)',
 	'invoke_sees_current_bindings': 'two reachable states with equal abstract state (bindings, instances, counter) react identically to every op whatever was invoked before: the annotation cache is invisible also under later bind/unbind',
+	'resolve_cached_creates_nothing': 'in every state: resolve of a symbol whose slot holds an instance returns it and changes nothing (no factory call, counter and all dictionaries as before) - whatever the instance is (di.py tests membership, so also for a stored None / falsy object; the harness observes factory call counts for those)',
+	'state_fields': 'GENERATED (gen_di_state.py, ast of di.py): DI and LazyDI declare exactly the four dictionaries of the model Cont; the translator raises on any other attribute, class/module-level variable or caching decorator',
+	'code_effects': 'decide +kernel over the GENERATED per-method write sets and call graph (virtual dispatch resolved per class): the dictionaries each public method can write on its receiver (can_resolve none; bind registry [+definitions]; unbind/rebind also instances; resolve/invoke instances + annotation cache [+registry, definitions on a LazyDI]; _clone/combine none)',
+	'model_effects': 'for every container, op and fuel: one step of the model leaves every dictionary outside the code-derived write set of that op, and the class, exactly as it was (with tightness examples: the model does write each listed dictionary)',
+	'containers_own_their_dicts': 'decide +kernel over the GENERATED table: every dictionary attribute assigned on a container made by _clone / combine / instantiate receives a fresh dict (display, comprehension, .copy()), no method hands a dictionary object out, nothing is written to `other` and the methods called on it are write-free; _clone/combine assign exactly the attributes Cont.clone / Cont.combine copy',
 	'invoke_raising': 'invoke of a factory whose body raises never returns an object',
 	'resolve_raising': 'resolve of a symbol bound or lazily defined to a factory whose body raises fails, stores nothing for the symbol and keeps its binding (the factory is called again next time), at any nesting depth',
 	'fuel_sufficient': 'fuel is only a device: if the bindings of the history respect a rank (acyclic factory graph), resolve/invoke with more fuel than the rank never yields RecursionError',
@@ -1642,26 +1723,28 @@ def build_cases(ctx: Ctx) -> tuple[World, list[Stream], list[SearchResult]]:
 
 def run(ctx: Ctx) -> int:
 	translate_ok, translate_msg = True, ''
-	try:
-		from translate import gen_di_wiring
-		ctx.generated_tables.extend(gen_di_wiring.generate())
-	except Exception as e:  # noqa: BLE001 - a shape the translator does not understand breaks the tie, it is never passed over
-		translate_ok, translate_msg = False, f'gen_di_wiring: {type(e).__name__}: {e}'
+	for gen_name in ('gen_di_wiring', 'gen_di_state'):
+		try:
+			gen = importlib.import_module(f'translate.{gen_name}')
+			ctx.generated_tables.extend(gen.generate())
+		except Exception as e:  # noqa: BLE001 - a shape the translator does not understand breaks the tie, it is never passed over
+			translate_ok, translate_msg = False, (translate_msg + '; ' if translate_msg else '') + f'{gen_name}: {type(e).__name__}: {e}'
 	proof = common.prove(ctx, PROP, leanchecker=ctx.thorough)
 	_, streams, searches = build_cases(ctx)
 	return common.finish(ctx, proof, streams, searches,
 		translate_ok=translate_ok, translate_msg=translate_msg,
 		statements=STATEMENTS,
 		partial={
+			'generated_state': 'Generated/DIState.lean is rewritten from the ast of lang/di.py on every run (per method: dictionaries written on self / on other, dictionary attributes assigned on a new container and whether the value is a fresh dict, escaping dictionaries, container methods called, resolved for both dynamic classes; unknown shapes raise TranslateError = broken tie); state_fields / code_effects / containers_own_their_dicts are decided over it and model_effects ties the model to it',
 			'generated': 'Generated/DIWiring.lean is rewritten from app/config.py + providers/app.py + providers/syntax/entrypoints.py on every run (tables evaluated by import, statement shapes by ast; unknown shapes raise TranslateError = broken tie); production_* theorems are decide +kernel over it; the real op log of the production stream is compared with the generated handler/di_container shapes',
 			'usage': 'derived operations di_container / per-module load (Model: diContainerOps, loadModuleOps) with isolation theorems; production op logs replayed on the model (stream di-production) and the isolation laws checked on the real containers (search production laws)',
 			'proved': 'refinement concrete dictionaries -> Spec for every op sequence; singleton per binding generation; rebind discards the instance; combine: right operand wins (bindings, instances, unresolved definitions); frame (operands of combine/clone are unaffected); lazy materialisation is per clone; unknown symbol -> ValueError; the invoke law (fill leading resolvable annotated parameters, validate the rest on every call)',
 			'regression': 'the five defects of the snapshot tree (repaired by c3fd82c / 6d5a231) are corpus cases of the stream and OFF-switches of the reference: their return is reported under the old finding keys with the op sequence',
-			'correspondence_only': 'dictionaries are copied not shared by _clone/combine (the Lean model has value semantics, so aliasing is excluded by construction and tied by the stream, which keeps using all operands after combine); Python-level details of what a factory object exposes (__annotations__ of __to_annotated(factory), hash/equality of that callable, arity)',
+			'correspondence_only': 'that dictionaries are copied not shared by _clone/combine is now read from the source (containers_own_their_dicts, syntactic: fresh-dict expressions only, no escaping dictionary) in addition to the stream that keeps using all operands after combine and compares dict object identities; still correspondence-only: the statement-level logic of each method (the model is hand-written line by line), Python-level details of what a factory object exposes (__annotations__ of __to_annotated(factory), hash/equality of that callable, arity)',
 		},
 		assumptions=[
 			'symbol classes have pairwise different full names __module__ + __qualname__ (so LazyDI\'s path keys and DI\'s class keys are in bijection); module-level classes are importable by that path, nested / function-local classes (model ids >= 500) are not: a LazyDI definition of such a class is visible but resolve raises ModuleNotFoundError (modelled)',
-			'factories take positional parameters without defaults and do not touch containers themselves; a factory either always raises (modelled: flag `raises`, stream with raising functions/classes) or returns a fresh object; remaining arguments are direct instances of the expected class or not (no subclass relations)',
+			'factories take positional parameters without defaults and do not touch containers themselves; a factory either always raises (modelled: flag `raises`, stream with raising functions/classes) or returns: a fresh object (possibly falsy and empty), or None (in the model a creation event like any other; since None has no identity the driver prints such an instance as none/n<number of factory calls that returned so far>, so a re-run factory is visible at once); a remaining argument is an instance of the expected class, of a subclass of it (every fourth generated value), or of an unrelated class; the symbol classes themselves are unrelated to each other',
 			'generation numbers of the Spec are expressed as trace properties (no bind/rebind/unbind of the symbol in between) instead of a counter in the state',
 		],
 		trusted=['inspect.signature as the independent description of the scratch factories'])
